@@ -258,6 +258,12 @@ func (r *armRule) ret(tc *traceClient, x *core.TSCtx, ret *ssa.Return, q string,
 		}
 		if !onlyConnectionEnding(org) {
 			q = "drop:" + fkey(ret.Parent()) + ":" + retDescr(ret) + "{" + originList(org) + "}"
+		} else if org[oMalformed] && r.arm != 0x7f && r.arm != 'p' {
+			// a well-framed message whose body cannot be decoded: the error is handed up unchanged and the connection is
+			// closed without an ErrorResponse (one finding for the whole class, see runC06)
+			if r.c.malformedDrop == "" {
+				r.c.malformedDrop = tc.c.at(ret) + " (" + arm + ": " + retDescr(ret) + ")"
+			}
 		}
 	}
 	if len(x.Stack) != 0 {
@@ -367,6 +373,9 @@ func runC06(c *Ctx) {
 		}
 	}
 
+	if c.malformedDrop != "" {
+		R.Fail("C06.R2", "malformed-body:connection-dropped-without-ErrorResponse", c.malformedDrop, "a failing message produces exactly one ErrorResponse, never silence or a dropped connection", "an extended-protocol message with a correct length whose body cannot be decoded (short, unterminated) makes the accessor's error travel up unchanged: the connection is closed without any ErrorResponse and the following Sync is never answered (first such return: "+c.malformedDrop+")")
+	}
 	// ---------- R1 (continued): oversized message in a session (cannot know whether it was extended)
 	if h, slurp := c.exceededRecovery(); h != nil {
 		ec := c.P.Func("wire", "ErrorCode")
@@ -378,6 +387,7 @@ func runC06(c *Ctx) {
 		}
 	}
 
+	c.readMessageHandled("C06.R2")
 	// ---------- R3: discard-until-Sync state
 	c.c06DiscardState(hc)
 }
